@@ -155,6 +155,8 @@ type Client struct {
 	pendingCmds  []command
 	contReqs     []continuationRequest
 	closed       bool
+	readDone     bool  // the read goroutine has completed all pending commands
+	writeErr     error // first fatal error encountered while writing a command
 }
 
 // New creates a new IMAP client.
@@ -552,6 +554,8 @@ func (c *Client) registerContReq(cmd command) *imapwire.ContinuationRequest {
 	return contReq
 }
 
+// closeWithError closes the connection and completes all pending commands
+// with an error. It must only be called from the read goroutine.
 func (c *Client) closeWithError(err error) {
 	c.conn.Close()
 
@@ -559,6 +563,32 @@ func (c *Client) closeWithError(err error) {
 	c.state = imap.ConnStateLogout
 	pendingCmds := c.pendingCmds
 	c.pendingCmds = nil
+	c.readDone = true
+	c.mutex.Unlock()
+
+	for _, cmd := range pendingCmds {
+		c.completeCommand(cmd, err)
+	}
+}
+
+// closeWithWriteError closes the connection after a fatal error encountered
+// while writing a command.
+//
+// Pending commands are completed by the read goroutine, which is the only one
+// allowed to send on and close their channels. Once the read goroutine has
+// exited, commands can safely be completed from here.
+func (c *Client) closeWithWriteError(err error) {
+	c.conn.Close()
+
+	c.mutex.Lock()
+	if c.writeErr == nil {
+		c.writeErr = err
+	}
+	var pendingCmds []command
+	if c.readDone {
+		pendingCmds = c.pendingCmds
+		c.pendingCmds = nil
+	}
 	c.mutex.Unlock()
 
 	for _, cmd := range pendingCmds {
@@ -578,6 +608,11 @@ func (c *Client) read() {
 		}
 
 		cmdErr := c.decErr
+		if cmdErr == nil {
+			c.mutex.Lock()
+			cmdErr = c.writeErr
+			c.mutex.Unlock()
+		}
 		if cmdErr == nil {
 			cmdErr = io.ErrUnexpectedEOF
 		}
@@ -1107,7 +1142,7 @@ func (ce *commandEncoder) flush() {
 		if !errors.As(err, &imapErr) {
 			// TODO: consider stashing the error in Client to return it in
 			// future calls
-			ce.client.closeWithError(err)
+			ce.client.closeWithWriteError(err)
 		}
 	}
 	ce.Encoder = nil
